@@ -50,7 +50,7 @@ POOL = {
     'scriptroot': lambda: ScriptRootMiddleware(),
 }
 PATHS = ['/ok', '/rnd', '/empty', '/stream', '/red', '/ctx', '/x404', '/r409', '/r404', '/nb', '/nbret', '/x503', '/boom', '/g',
-         '/form', '/b', '/b/', '/missing', '/ctx?format=html', '/text', '/small', '/r400nb', '/boomkey',
+         '/form', '/b', '/b/', '/missing', '/ctx?format=html', '/text', '/small', '/r400nb', '/boomkey', '/wzabort', '/wzkey',
          # boundary sizes (buffer and block boundaries of compressors) and their neighbours
          '/size/0', '/size/1', '/size/4096', '/size/8192', '/size/16384', '/size/32768', '/size/65535', '/size/65536', '/size/65537',
          '/size/131072', '/size/262144', '/size/1048576',
@@ -142,6 +142,14 @@ def routes():
     def boomkey():
         raise KeyError('boomkey')
 
+    def wzabort():
+        # application code written against werkzeug: its own HTTP errors (abort(), a missing form key) are exceptions
+        from werkzeug.exceptions import abort
+        abort(403)
+
+    def wzkey(request):
+        return Response(request.args['no-such-key'])
+
     def form(request):
         return Response('form:%s' % sorted(request.form.items()))
 
@@ -227,7 +235,7 @@ def routes():
         return Response((b'0123456789abcdef' * (n // 16 + 1))[:n], mimetype='text/plain')
     return [('/ok', ok), ('/rnd', rndb), ('/empty', empty), ('/small', small), ('/text', text), ('/stream', stream), ('/red', red),
             ('/ctx', ctx, render_basic), ('/x404', x404), ('/r409', r409), ('/r404', r404), ('/nb', nb), ('/nbret', nbret),
-            ('/r400nb', r400nb), ('/x503', x503), ('/boom', boom), ('/boomkey', boomkey), GET('/g', ok), POST('/form', form), ('/pre/deflate', pre_deflate), ('/pre/gzip', pre_gzip), ('/pre/br', pre_other),
+            ('/r400nb', r400nb), ('/x503', x503), ('/boom', boom), ('/boomkey', boomkey), ('/wzabort', wzabort), ('/wzkey', wzkey), GET('/g', ok), POST('/form', form), ('/pre/deflate', pre_deflate), ('/pre/gzip', pre_gzip), ('/pre/br', pre_other),
             ('/roctx', ro_ctx, render_mapping), ('/passthrough', passthrough), ('/ownlength', ownlength), ('/prerendered', shared_chunks), POST('/rawpost', rawpost), ('/bareresp', bareresp), ('/rowctx', rowctx, render_row), ('/nocontent', nocontent), ('/notmodified', notmodified),
             ('/notype', notype), ('/b/', ok), ('/size/<n:int>', size), ('/vary', vary), ('/vary2', vary2)]
 
